@@ -31,6 +31,7 @@ TESTS = {
     "standin_ps_publickey_consume": ("zkchannels-crypto", ["C12", "C01", "C02", "C06"], ["ps.PublicKey::consume"]),
     "standin_pedersen_commitment": ("zkchannels-crypto", ["C09", "C10", "C11", "C05"], ["pedersen.Commitment::new", "pedersen.Commitment::verify_opening"]),
     "standin_cproof_verify": ("zkchannels-crypto", ["C11", "C10", "C01", "C02", "C08"], ["cproof.CommitmentProof::verify_knowledge_of_opening", "cproof.CommitmentProofBuilder::*"]),
+    "standin_cproof_patterns": ("zkchannels-crypto", ["C10", "C11", "C09"], ["cproof.CommitmentProof::verify_knowledge_of_opening", "cproof.CommitmentProofBuilder::*", "pedersen.Commitment::new"]),
     "standin_sproof_verify": ("zkchannels-crypto", ["C11", "C10", "C02", "C13", "C12"], ["sproof.SignatureProof::verify_knowledge_of_signature", "sproof.SignatureProof::consume"]),
     "standin_range_validate": ("zkchannels-crypto", ["C13", "C19"], ["range.RangeConstraintParameters::validate"]),
     "standin_range_constraint": ("zkchannels-crypto", ["C13", "C10", "C02"], ["range.RangeConstraintBuilder::*", "range.RangeConstraint::verify_range_constraint"]),
@@ -40,16 +41,18 @@ TESTS = {
     "standin_channel_id_collision_mod_q": ("zkabacus-crypto", ["C06"], ["states.ChannelId::to_scalar"]),
     "standin_channel_id_text": ("zkabacus-crypto", ["C15", "C16"], ["states.<ChannelId as FromStr>::from_str", "states.<ChannelId as Display>::fmt"]),
     "standin_channel_id_new": ("zkabacus-crypto", ["C18"], ["states.ChannelId::new"]),
+    "standin_context_digest": ("zkabacus-crypto", ["C06", "C12"], ["zproofs.Context::new"]),
     "standin_establish_tuple": ("zkabacus-crypto", ["C06", "C01"], ["zproofs.EstablishProof::new", "zproofs.EstablishProof::verify"]),
     "standin_pay_tuple": ("zkabacus-crypto", ["C06", "C02"], ["zproofs.PayProof::new", "zproofs.PayProof::verify"]),
     "standin_no_hidden_slot_exposed": ("zkabacus-crypto", ["C14"], ["zproofs.EstablishProof::new", "zproofs.PayProof::new"]),
+    "standin_close_from_every_stage": ("zkabacus-crypto", ["C03", "C04", "C14"], ["customer.Inactive/Ready/Started/Locked::close", "merchant.Config::check_close_signature"]),
     "standin_restore_continues": ("zkabacus-crypto", ["C20", "C03"], ["customer.Requested/Inactive/Ready/Started/Locked (serde derives)", "customer.*::close", "customer.Started::lock"]),
     "standin_merchant_flow": ("zkabacus-crypto", ["C04", "C05", "C03", "C01", "C02"], ["merchant.Config::*", "merchant.Unrevoked::complete_payment", "customer.*"]),
 }
 
 
 # stand-ins that run in every tier: they carry a recorded finding that no deductive obligation expresses
-ALWAYS = {"C06": ["standin_channel_id_collision_mod_q", "standin_channel_id_scalar", "standin_establish_tuple", "standin_pay_tuple"], "C14": ["standin_no_hidden_slot_exposed"]}
+ALWAYS = {"C06": ["standin_channel_id_collision_mod_q", "standin_channel_id_scalar", "standin_establish_tuple", "standin_pay_tuple", "standin_context_digest"], "C14": ["standin_no_hidden_slot_exposed"]}
 
 
 def tests_for(pid):
